@@ -2,3 +2,58 @@
 From Coq Require Import List Ascii String ZArith Bool.
 From Shexer Require Import Lib.PyStr Gen.Consts Spec.Rdf Spec.TtlSyntax Spec.TtlDomain Model.TtlReader Proofs.TtlProofs.
 Import ListNotations.
+
+(** T1 (state machine, unbounded, any line-break placement).  [e] is the
+    environment in force, [s0] any reader state; [okS/okP/okO] any token-level
+    domain on which a single token is parsed and tuned to its meaning (T4
+    provides one).  Then for ANY list of statement groups [gs] whose tokens
+    are in that domain and ANY way [ls] of cutting their token sequence into
+    lines, running the reader's state machine line after line (state
+    persisting across lines) from the waiting-for-subject state yields exactly
+    the triples of [gs] (up to lexical forms), in order, without error, and
+    ends in the waiting-for-subject state with the same prefixes and base. *)
+Theorem C07_T1 :
+  forall (e : env) (s0 : st) (okS : subj -> bool) (okP : pred -> bool) (okO : object -> bool),
+  (forall x n s, same_env s s0 -> okS x = true -> sem_subj e x = Some n ->
+     closure_state (tokS s0 x) = None /\
+     exists raw, parse_elem s (tokS s0 x) = Ok (Some raw) /\ tune_subj (Some raw) = Ok n) ->
+  (forall x p s, same_env s s0 -> okP x = true -> sem_pred e x = Some p ->
+     closure_state (tokP s0 x) = None /\
+     exists raw, parse_elem s (tokP s0 x) = Ok (Some raw) /\ tune_prop (Some raw) = Ok p) ->
+  (forall x o s, same_env s s0 -> okO x = true -> sem_obj e x = Some o ->
+     closure_state (tokO s0 x) = None /\
+     exists raw o', parse_elem s (tokO s0 x) = Ok (Some raw) /\
+                    tune_token (Some raw) (base s) ttl_dflt_allow_untyped_numbers = Ok o' /\
+                    erase_obj o' = erase_obj o) ->
+  forall (gs : list group) (ls : list (list atok)) (tss : list (list triple)) (s : st),
+  same_env s s0 -> state s = WS ->
+  forallb (group_ok okS okP okO) gs = true ->
+  seq_opt (map (sem_group e) gs) = Some tss ->
+  List.concat ls = flat_map group_tokens gs ->
+  exists s' ts', machine_lines (map (map (tok_str s0)) ls) s = (ts', Ok s') /\
+                 map erase_lex ts' = map erase_lex (List.concat tss) /\
+                 same_env s' s0 /\ state s' = WS.
+Proof. exact state_machine_any_split. Qed.
+Print Assumptions C07_T1.
+
+(** T2 (tokenizer).  On a line that is the single-blank-separated
+    concatenation of tokens of the dialect's shapes (closure character;
+    [<...>] without inner [>]; quoted string with backslash escapes followed
+    by nothing, [@...] or [^^...] without blanks; any other blank-free run not
+    starting with a closure character, [<] or a quote), iterating
+    [_next_line_token] from index 0 returns exactly those tokens, [<...>]
+    tokens after [_parse_cornered_element]; it never raises and never runs
+    out of fuel. *)
+Theorem C07_T2 : forall (b : option str) (toks : list str),
+  Forall tshape toks ->
+  tokenize (S (S (List.length (joined toks)))) b (joined toks) 0 = Ok (map (vtok b) toks).
+Proof. exact tokenizer_correct. Qed.
+Print Assumptions C07_T2.
+
+(** ... hence the token loop of [_process_line_with_potential_triples] on such
+    a line is the state machine of T1 run over those tokens *)
+Theorem C07_T2_loop : forall (toks : list str) (s : st),
+  Forall tshape toks ->
+  process_tokens_line (joined toks) s = machine (map (vtok (base s)) toks) s.
+Proof. exact tokens_line_machine. Qed.
+Print Assumptions C07_T2_loop.
